@@ -6,7 +6,7 @@ SPEC = {
     "allowed_axioms": [],
     "harness_pkg": "hx_txn",
     "harness_bin": "c34",
-    "n": {"quick": 1500, "thorough": 30000},
+    "n": {"quick": 1500, "thorough": 30000},  # + n/15 state-parity sequences
     "harness_timeout": {"quick": 900, "thorough": 3000},
     "trusted_base": [
         "Coq 8.16.1 kernel + vm_compute (no native_compute); coqchk re-check in the thorough tier",
@@ -19,7 +19,9 @@ SPEC = {
         "Rust harness harness/hx_txn (lib.rs, bin/c34.rs), serde_json (parsing the C API's output, float_roundtrip) and lib/vcheck.py",
     ],
     "assumptions": [
-        "row/value/error parity itself is sampled (generated statements + parameters on byte-identical databases), not proved",
+        "row/value/error parity itself is sampled (generated statements + parameters on byte-identical databases), not proved; "
+        "state parity: sequences of write statements (incl. ones reporting 0 changes although they write) through ndb_execute_write and through "
+        "prepare/execute_mixed/commit on byte-identical databases, results, change counts and a read-back compared",
         "paths (ReifiedPath) and raw EdgeKey values are not in the value model; relationship values are compared in Coq only",
         "error category: expected SYNTAX when the Rust API fails in prepare(), EXECUTION when it fails while executing",
         "ndb_prepare_* / ndb_stmt_* (prepared statements of the C API) are not exercised; they call the same execute_read_rows / execute_write_count",
